@@ -219,10 +219,10 @@ def rpVerifies (keys : List Key) (a : Artefact) : Bool :=
 
 /-! ## the property's predicate: when may tokens be released -/
 
-/-- the caller proved to be client `cl`: by its secret, or — public client — by the verifier matching
-the challenge sealed in the code -/
+/-- the caller proved to be client `cl`: by its secret (whether or not a verifier came along is not the
+property's business), or — secret-less client — by the verifier matching the challenge sealed in the code -/
 def provedClient (cfg : Cfg) (cl : Client) (pass verifier : Str) (c : Wire) : Bool :=
-  (cl.secret != [] && verifier == [] && pass == cl.secret) ||
+  (cl.secret != [] && pass == cl.secret) ||
   (cl.secret == [] && verifier != [] && validCodeVerifier cfg verifier c)
 
 /-- tokens may be released for this request -/
